@@ -44,6 +44,9 @@ func (d *DBFT[H]) sendPrepareRequest(force bool) {
 
 	d.PreparationPayloads[d.MyIndex] = msg
 	d.broadcast(msg)
+	// Responses, PreCommits and Commits could have been received before our
+	// own PrepareRequest was made, validate them against it.
+	d.updateExistingPayloads(msg)
 
 	d.prepareSentTime = d.Timer.Now()
 
